@@ -75,6 +75,29 @@ func selfTest(root, onlyProp string, verbose bool) (ran, bad int, lines []string
 		return 0, 1, []string{"selftest: cannot load " + *flagRepo + ": " + err.Error()}
 	}
 	findings, _ := eng.LoadFindings(filepath.Join(root, "known_findings.json"))
+	// failing obligations of the unmodified tree per property: only NEW failures count for a seed / variant
+	baseFail := map[string]map[string]bool{}
+	baseline := func(pid string) map[string]bool {
+		if m, ok := baseFail[pid]; ok {
+			return m
+		}
+		m := map[string]bool{}
+		if pr := rules.Get(pid); pr != nil {
+			eng.ResetLockCache()
+			rules.ResetCaches()
+			c := eng.NewCtx(base, pid, "quick")
+			func() {
+				defer func() { recover() }()
+				pr.Run(c)
+			}()
+			c.ApplyFindings(findings)
+			for _, o := range c.Failing() {
+				m[o.Key()] = true
+			}
+		}
+		baseFail[pid] = m
+		return m
+	}
 	var dirs []string
 	for _, pat := range []string{"seeded/*", "selftest/benign/*"} {
 		ds, _ := filepath.Glob(filepath.Join(root, pat))
@@ -127,6 +150,9 @@ func selfTest(root, onlyProp string, verbose bool) (ran, bad int, lines []string
 			if pr == nil {
 				continue
 			}
+			bf := baseline(pid)
+			eng.ResetLockCache()
+			rules.ResetCaches()
 			c := eng.NewCtx(mp, pid, "quick")
 			func() {
 				defer func() {
@@ -138,7 +164,9 @@ func selfTest(root, onlyProp string, verbose bool) (ran, bad int, lines []string
 			}()
 			c.ApplyFindings(findings)
 			for _, o := range c.Failing() {
-				hit = append(hit, pid+":"+o.Rule+" "+o.Construct)
+				if !bf[o.Key()] {
+					hit = append(hit, pid+":"+o.Rule+" "+o.Construct)
+				}
 			}
 		}
 		caught := len(hit) > 0
